@@ -130,6 +130,19 @@ def families():
     INT_KEYS = [0, 1, 3, -2181784832106254636]
     INT_PROBES = [2, -1]          # never saved; -1 is the "still active" bundle number and the id of the LRU sentinel nodes
 
+    def other_id(key):
+        """a different id of the same alphabet (rows that carry it must not end up under that id)"""
+        return INT_KEYS[(INT_KEYS.index(key) + 1) % len(INT_KEYS)] if key in INT_KEYS else 1
+
+    def own_unit_ids(j, key, n):
+        """The unit_id the rows of pool item j carry THEMSELVES, before save() stamps the save key on them (the save key must
+        win): agreeing, disagreeing (a foreign id, another saved id), missing (None -> field left at its default / absent),
+        a numpy int — rows revived from another workspace or taken from a loaded table look like that."""
+        import numpy as np
+        plan = {1: [key], 2: [key + 1000, key + 1000], 3: [None, np.int64(key)],
+                4: [np.int64(key), other_id(key), key + 1000, None]}.get(j, [])
+        return [plan[i % len(plan)] if plan else None for i in range(n)]
+
     def general(cls, name, item_schema):
         def make(ws, ic, bc):
             return cls(_options(ws), item_schema, os.path.join(ws, name), ic, bc)
@@ -138,8 +151,10 @@ def families():
     # ---------------------------------------------------------------- unit level: scope hierarchy
     def scope_build(j, key):
         sp = S.ScopeSpace()
-        for i in range([0, 1, 2, 1, 3][j]):
-            sp.add(S.Scope(unit_id=key, stmt_id=10 * j + i + 1, scope_id=10 * j, parent_stmt_id=i,
+        n = [0, 1, 2, 1, 3][j]
+        own = own_unit_ids(j, key, n)
+        for i in range(n):
+            sp.add(S.Scope(unit_id=(-1 if own[i] is None else own[i]), stmt_id=10 * j + i + 1, scope_id=10 * j, parent_stmt_id=i,
                            scope_kind=j, name=f"n{j}_{i}", attrs="a" if i else "", supers="", alias="", source=""))
         return sp
 
@@ -162,7 +177,9 @@ def families():
     # ---------------------------------------------------------------- unit level: GIR (export does not cache)
     def gir_build(j, key):
         rows = []
-        for i in range([0, 1, 2, 2, 4][j]):
+        n = [0, 1, 2, 2, 4][j]
+        own = own_unit_ids(j, key, n)
+        for i in range(n):
             r = {"operation": ["assign_stmt", "call_stmt", "return_stmt"][(i + j) % 3], "stmt_id": 100 * j + i + 1,
                  "parent_stmt_id": 0}
             if (i + j) % 3 == 0:
@@ -171,6 +188,8 @@ def families():
                 r.update({"target": "%vv1", "name": f"f{j}", "positional_args": "['a']"})
             else:
                 r.update({"name": f"v{j}"})
+            if own[i] is not None:
+                r["unit_id"] = own[i]
             rows.append(r)
         return rows
 
@@ -227,7 +246,10 @@ def families():
     def cfg_build(j, key):
         g = S.ControlFlowGraph(key)
         edges = [[], [(1, 2, 0)], [(1, 2, 0), (2, 3, 1), (2, 4, 2)], [(5, -1, 0)], [(1, 2, 0), (2, 3, 0), (3, 1, 3), (3, -1, 0)]][j]
+        import numpy as np
         for u, v, w in edges:
+            if j == 3:          # statement ids as they come out of a loaded table
+                u, v = np.int64(u), np.int64(v)
             g.add_edge(u, v, w)
         return nx.DiGraph(g.graph)
 
@@ -416,11 +438,12 @@ def families():
         g = S.SymbolGraph(key)
         e = [[], [("d", 11, (0, 7, 11), 1)], [("d", 11, (0, 7, 11), 1), ("u", (0, 7, 11), 12, 2)], [("u", (1, 8, 12), 13, 4)],
              [("d", 11, (0, 7, 11), 1), ("u", (0, 7, 11), 12, 2), ("d", 12, (1, 8, 12), 3), ("u", (1, 8, 12), 13, 2)]][j]
-        for kind, a, b, w in e:
+        import numpy as np
+        for n_, (kind, a, b, w) in enumerate(e):
             if kind == "d":
-                g.add_edge(a, S.SymbolDefNode(*b), w)
+                g.add_edge(np.int64(a) if (j + n_) % 2 else a, S.SymbolDefNode(*b), w)
             else:
-                g.add_edge(S.SymbolDefNode(*a), b, w)
+                g.add_edge(S.SymbolDefNode(*a), np.int64(b) if (j + n_) % 2 else b, w)
         return g.graph
 
     def sg_canon(key, g):
